@@ -3,14 +3,17 @@ import ProductMD.Model.TreeInfoText
 import ProductMD.Proofs.C05Images
 import ProductMD.Proofs.C05Rpms
 import ProductMD.Proofs.C05CI
+import ProductMD.Proofs.C05CIDownEx
 import ProductMD.Proofs.C05TreeInfo
 import ProductMD.Proofs.C05TreeInfoIdem
+import ProductMD.Proofs.C05TIDownEx
 import ProductMD.Proofs.C05WitnessTI
 import ProductMD.Proofs.C05WitnessTI03
 import ProductMD.Proofs.C05WitnessTI00
 import ProductMD.Properties.C03
 import ProductMD.Properties.C02
 import ProductMD.Properties.C09
+import ProductMD.Properties.C10
 import ProductMD.Model.ComposeInfoLegacy
 import ProductMD.Model.TreeInfoLegacy
 import ProductMD.Model.RpmsLegacy
@@ -129,6 +132,47 @@ example : versionTuple (.str (L "1.0")) = .ok (.nums (1, 0)) ∧ verLe (1, 0) (1
     ∧ versionTuple (.str (L "0.2")) = .ok (.nums (0, 2)) ∧ verLe (0, 2) (1, 0) = true
     ∧ ([(L "path", PyVal.str (L "a.iso"))] : List (Str × PyVal)).find? (·.1 == L "subvariant") = none := by decide +kernel
 
+open PM.Img.C10 in
+/-- **faithful, a whole ≤ 1.0 images document** (general: any number of variants, arches and images; composition of
+`C10_images_refile` — the exact filing of a ≤ 1.1 document incl. the `src` re-filing — with `C05_images_faithful_subvariant`):
+for a document of a version `v ≤ (1, 0)` whose image table is `O` and whose image dictionaries carry no `subvariant`, the
+filings of the loaded manifest are exactly: the object the CURRENT reader makes of the k-th dictionary with
+`"subvariant": ""` added, under `(variant, b)` for every `b` the dictionary's place `(variant, a)` stands for (all arch keys of
+the variant but `src` when `a = src`, `a` itself otherwise).  Nothing else is filed, nothing is lost. -/
+theorem C05_images_faithful_old_doc (doc : PyVal) (s : ImgState) (h : Img.deserialize doc = .ok s)
+    (ver : PyVal) (hver : Img.headerDeserialize doc = .ok ver) (v : Nat × Nat) (hvt : Img.versionTuple ver = .ok (.nums v))
+    (hold : verLe v (1, 0) = true)
+    (payload : PyVal) (hp : PyOps.item doc (L "payload") = .ok payload) (O : OutCells) (hO : OutNodup O)
+    (himg : PyOps.item payload (L "images") = .ok O.toPy)
+    (hsub : ∀ x ∈ outTriples O, ∃ kvs, x.2.2 = .dict kvs ∧ kvs.find? (·.1 == L "subvariant") = none) :
+    ∀ vr b k img, (vr, b, k, img) ∈ entries s.cells ↔
+      ∃ a kvs as, (outTriples O)[k]? = some (vr, a, .dict kvs)
+        ∧ Image.deserialize (.str currentVersion) (.dict (kvs ++ [(L "subvariant", .str [])])) = .ok img
+        ∧ (vr, as) ∈ O ∧ b ∈ targets (as.map (·.1)) a := by
+  have hold11 : gateEval Gen.gate_images_Images_deserialize_0 (.nums v) = .ok true := by
+    rw [(C05_images_gates v).2.1]
+    obtain ⟨a, b⟩ := v
+    simp only [verLe, Bool.or_eq_true, Bool.and_eq_true, decide_eq_true_eq, beq_iff_eq] at hold ⊢
+    congr 1
+    simp only [Bool.or_eq_true, Bool.and_eq_true, decide_eq_true_eq, beq_iff_eq]
+    omega
+  intro vr b k img
+  rw [C10_images_refile doc s h ver hver (.nums v) hvt hold11 payload hp O hO himg]
+  constructor
+  · rintro ⟨a, d, as, hk, hd, hv, hb⟩
+    obtain ⟨kvs, hkv, hno⟩ := hsub _ (List.mem_of_getElem? hk)
+    simp only at hkv
+    subst hkv
+    rw [C05_images_faithful_subvariant ver v hvt hold kvs hno] at hd
+    exact ⟨a, kvs, as, hk, hd, hv, hb⟩
+  · rintro ⟨a, kvs, as, hk, hd, hv, hb⟩
+    obtain ⟨kvs', hkv, hno⟩ := hsub _ (List.mem_of_getElem? hk)
+    simp only at hkv
+    injection hkv with hkv
+    subst hkv
+    rw [← C05_images_faithful_subvariant ver v hvt hold kvs hno] at hd
+    exact ⟨a, .dict kvs, as, hk, hd, hv, hb⟩
+
 /-- **faithful, 1.1 and later** (every version `v` with `¬ v ≤ (1, 0)`): the image reader does not depend on the version —
 nothing is defaulted, a document without `subvariant` is refused as by the current reader -/
 theorem C05_images_faithful_from_1_1 (ver : PyVal) (v : Nat × Nat) (hvt : versionTuple ver = .ok (.nums v))
@@ -171,6 +215,31 @@ example : (match upgradeCycle wOldDoc with
     | .ok (s, d1, s2, d2) => s.cells.all.length == 4 && PyVal.beq (PyVal.canon d1) (PyVal.canon d2)
         && pyEq s.compose.date (.str (L "20150522")) && pyEq s.compose.type (.str (L "nightly")) && pyEq s.compose.respin (.int 3)
     | .error _ => false) = true := by decide +kernel
+
+/-- a 1.0 document for `C05_images_faithful_old_doc`: no `subvariant` anywhere, a `src` cell -/
+def wImg10 (p a : String) : PyVal := .dict [(L "path", .str (L p)), (L "mtime", .int 1), (L "size", .int 1), (L "volume_id", .none),
+    (L "type", .str (L "dvd")), (L "format", .str (L "iso")), (L "arch", .str (L a)), (L "disc_number", .int 1),
+    (L "disc_count", .int 1), (L "checksums", .dict [(L "md5", .str (L p))]), (L "implant_md5", .none), (L "bootable", .bool false)]
+def wTable10 : OutCells := [(L "Server", [(L "i386", [wImg10 "b.iso" "i386"]), (L "src", [wImg10 "s.iso" "src"]), (L "x86_64", [wImg10 "a.iso" "x86_64"])])]
+def wDoc10 : PyVal :=
+  .dict [(L "header", .dict [(L "version", .str (L "1.0"))]),
+    (L "payload", .dict [(L "compose", .dict [(L "id", .str (L "F-22-20150522.n.3")), (L "type", .str (L "nightly")),
+        (L "date", .str (L "20150522")), (L "respin", .int 3)]),
+      (L "images", wTable10.toPy)])]
+
+/-- its hypotheses hold: the document loads, header 1.0 ≤ (1, 0), unique keys, no `subvariant`; and the source image is
+filed under both binary arches (4 filings from 3 dictionaries) -/
+example : (Img.deserialize wDoc10).toBool = true ∧ Img.headerDeserialize wDoc10 = .ok (.str (L "1.0"))
+    ∧ Img.versionTuple (.str (L "1.0")) = .ok (.nums (1, 0)) ∧ OutNodup wTable10
+    ∧ (∀ x ∈ outTriples wTable10, ∃ kvs, x.2.2 = .dict kvs ∧ kvs.find? (·.1 == L "subvariant") = none)
+    ∧ (match Img.deserialize wDoc10 with | .ok s => (entries s.cells).length | .error _ => 0) = 4 := by
+  refine ⟨by decide +kernel, by rfl, by rfl, ⟨by decide, by decide⟩, ?_, by decide +kernel⟩
+  intro x hx
+  have : outTriples wTable10 = [(L "Server", L "i386", wImg10 "b.iso" "i386"), (L "Server", L "src", wImg10 "s.iso" "src"),
+      (L "Server", L "x86_64", wImg10 "a.iso" "x86_64")] := rfl
+  rw [this] at hx
+  simp only [List.mem_cons, List.not_mem_nil, or_false] at hx
+  rcases hx with rfl | rfl | rfl <;> exact ⟨_, rfl, by decide⟩
 
 end Images
 
@@ -333,8 +402,8 @@ theorem C05_ci_faithful_tops (keys cs : List Str)
 down-conversion, the legacy reader (gate `< (1, 0)`) looks its children up under exactly the keys, in exactly the order, the
 current reader uses for the entry with the list — given a table in sorted key order (what `sort_keys=True` writes), every
 listed child present, and nothing else under the prefix `uid-`.  The last condition is what fails from depth 3 on (a
-grandchild `uid-c-g` also starts with `uid-`): F32, `C05_ci_legacy_depth3_refused_witness`.  Not proved: the assembly of
-these two facts through `buildL` into `deserialize (down d) = deserialize d` for depth ≤ 2 (validated per case). -/
+grandchild `uid-c-g` also starts with `uid-`): F32, `C05_ci_legacy_depth3_refused_witness`.  The assembly of these two facts
+through `buildL` into the whole reader is `C05_ci_faithful_down`. -/
 theorem C05_ci_faithful_children (g : Legacy.Gates) (hg : g.variant = true) (full data data' : PyVal) (vuid : Str) (ids : List Str)
     (hd : data.get? k%"variants" = some (strList ids)) (hd' : data'.get? k%"variants" = none)
     (hs : SSorted full.keys)
@@ -358,6 +427,106 @@ example :
   · intro k hk
     simp only [List.mem_cons, List.not_mem_nil, or_false] at hk
     rcases hk with rfl | rfl | rfl | rfl <;> decide
+
+/-! ### the general down-conversion theorem
+
+`CI.down vs ver keep ci` (Model/ComposeInfoDown.lean) is the document a writer of format `ver` would have written for `ci`, from
+the format documentation; `CI.expected ver keep ci` is the documented result of loading it: the normal form of `ci` (what the
+current format gives back, C01) with exactly the stated losses — release / base-product / per-variant release `type` → "ga"
+below 1.1, `internal` → False where the format has no such field (always in a `product` section).  Both are compared with the
+harness's spec-side `legacy.ci_down` / `ci_expect` on every generated case (driver ops `c05_ci_down`, `c05_ci_expected`). -/
+
+/--
+**faithful, every version, every forest in the domain.**  For every description `ci` keyed the way `add()` keys it, every
+version `ver` whose text `vs` the header accepts (`hval`, `hvt`: facts about the text alone) and every choice of the optional
+`internal`: the legacy-aware reader loads the format-`ver` document of `ci` as exactly `expected ver keep ci` — every section,
+every variant at any depth with fields, arches, paths, release and children.  Side conditions, both exact and decidable:
+
+* `hid` (only below 0.3, where the compose section has no `date` / `respin`): the id decoder finds the description's own date,
+  type and respin in its id (`IdDerivable`; necessity: `exDown_id_needed`, and F10 / F24 are ids where it does not);
+* `hdom` (only below 1.0, where children are related by UID prefix only), on the uid-keyed table `d` the writer builds:
+  `KidsExact d` — nothing but the listed children of an entry lies under its prefix `uid-` — and `TopsExact d` — a key is
+  somebody's child exactly when the part before its last dash is a key.  Every forest of depth ≤ 2 whose top-level UIDs are not
+  dash-extensions of one another satisfies it; no forest of depth 3 does (a grandchild `uid-c-g` lies under `uid-`): F32,
+  `C05_ci_down_domain_needed`.  From 1.0 on there is no condition (`C05_ci_faithful_down_from_1_0`).
+-/
+theorem C05_ci_faithful_down (vs : Str) (ver : Nat × Nat) (keep : Bool) (ci : ComposeInfo) (j : PyVal)
+    (hdown : down vs ver keep ci = .ok j) (hk : WellKeyed ci)
+    (hval : validateClass "common.Header" (headerObj (.str vs)) = .ok ()) (hvt : versionTuple vs = .ok ver)
+    (hid : vLe (0, 3) ver = false → IdDerivable ci.compose)
+    (hdom : LegacyDomain ver ci) :
+    Legacy.deserialize j = .ok (expected ver keep ci) :=
+  deserialize_down vs ver keep ci j hdown hk (headerOK_of vs ver keep hval hvt) hid hdom
+
+/-- from 1.0 on (explicit child lists, full compose section): no side condition, any depth, any UIDs -/
+theorem C05_ci_faithful_down_from_1_0 (vs : Str) (ver : Nat × Nat) (keep : Bool) (ci : ComposeInfo) (j : PyVal)
+    (h10 : vLe (1, 0) ver = true)
+    (hdown : down vs ver keep ci = .ok j) (hk : WellKeyed ci)
+    (hval : validateClass "common.Header" (headerObj (.str vs)) = .ok ()) (hvt : versionTuple vs = .ok ver) :
+    Legacy.deserialize j = .ok (expected ver keep ci) :=
+  C05_ci_faithful_down vs ver keep ci j hdown hk hval hvt
+    (fun h => by rw [vLe_0_3_of_1_0 ver h10] at h; cases h) (legacyDomain_from_1_0 ver ci h10)
+
+/-- a format that has every field (≥ 1.1 and `internal` written: any ≥ 1.2, or a 1.1 writer that already knew it) loses
+nothing: the result is the normal form itself, i.e. what the current format reads back (C01_readback) -/
+theorem C05_ci_faithful_down_lossless (ver : Nat × Nat) (keep : Bool) (ci : ComposeInfo)
+    (h11 : vLe (1, 1) ver = true) (hi : keep = true ∨ vLe (1, 2) ver = true) :
+    expected ver keep ci = ci.norm :=
+  expected_lossless ver keep ci (lossless_of ver keep h11 hi)
+
+/-- **then idempotent**: the object loaded from the format-`ver` document, once the current writer has written it as `j'`
+(a current-version document), is re-read by the current reader as its normal form, and writing that again gives `j'`;
+through the text with the modelled `json.loads` as well (C01_bytes_parsed; `hnum`: `int()` accepts the respin's digits) -/
+theorem C05_ci_down_then_idempotent (lim : Nat) (vs : Str) (ver : Nat × Nat) (keep : Bool) (ci : ComposeInfo) (j j' : PyVal) (t : Str)
+    (hdown : down vs ver keep ci = .ok j) (hk : WellKeyed ci)
+    (hval : validateClass "common.Header" (headerObj (.str vs)) = .ok ()) (hvt : versionTuple vs = .ok ver)
+    (hid : vLe (0, 3) ver = false → IdDerivable ci.compose) (hdom : LegacyDomain ver ci)
+    (hs : serialize (expected ver keep ci) = .ok j')
+    (hnum : JsonParse.intFits lim ci.compose.respin = true) (hd : dumps (expected ver keep ci) = .ok t) :
+    CI.deserialize j' = .ok (expected ver keep ci).norm ∧ serialize (expected ver keep ci).norm = .ok j'
+    ∧ reloadDump (JsonParse.parseWith lim) t = .ok t := by
+  have h := C05_ci_faithful_down vs ver keep ci j hdown hk hval hvt hid hdom
+  have hi := C05_ci_idempotent j j' _ h hs
+  have hkx := Legacy.deserialize_wellKeyed j _ h
+  have hr : (expected ver keep ci).compose.respin = ci.compose.respin := (C01_norm_sections ci).2.2.2.1
+  exact ⟨hi.1, hi.2.2, C01_bytes_parsed lim _ t hkx (by rw [hr]; exact hnum) hd⟩
+
+/-- the theorems are not vacuous: on `exDown` (depth 2, layered release with base product, label, dashed top-level UID, a
+layered-product child with its own release) every hypothesis holds at 0.2 (every loss at once) and at 0.9, the documents
+exist, and the object loaded at 0.2 is the stated one (`exDown_expected_0_2`: both release types and the base product's are
+"ga", every `internal` False, nothing else differs from the normal form) -/
+theorem C05_ci_down_nonvacuous :
+    (∃ j, down k%"0.2" (0, 2) false exDown = .ok j ∧ Legacy.deserialize j = .ok (expected (0, 2) false exDown))
+    ∧ (∃ j, down k%"0.9" (0, 9) false exDown = .ok j ∧ Legacy.deserialize j = .ok (expected (0, 9) false exDown))
+    ∧ (∃ j, down k%"1.1" (1, 1) true exDown = .ok j ∧ Legacy.deserialize j = .ok exDown.norm) := by
+  obtain ⟨hk, hd2, hd9, ho2, ho9, ho11⟩ := exDown_hyps
+  refine ⟨?_, ?_, ?_⟩
+  · cases hj : down k%"0.2" (0, 2) false exDown with
+    | error e => rw [hj] at ho2; cases ho2
+    | ok j => exact ⟨j, rfl, C05_ci_faithful_down _ _ _ _ j hj hk (by decide +kernel) (by decide +kernel) (fun _ => exDown_idDerivable) hd2⟩
+  · cases hj : down k%"0.9" (0, 9) false exDown with
+    | error e => rw [hj] at ho9; cases ho9
+    | ok j => exact ⟨j, rfl, C05_ci_faithful_down _ _ _ _ j hj hk (by decide +kernel) (by decide +kernel) (fun h => by cases h) hd9⟩
+  · cases hj : down k%"1.1" (1, 1) true exDown with
+    | error e => rw [hj] at ho11; cases ho11
+    | ok j =>
+      refine ⟨j, rfl, ?_⟩
+      rw [← C05_ci_faithful_down_lossless (1, 1) true exDown rfl (Or.inl rfl)]
+      exact C05_ci_faithful_down_from_1_0 _ _ _ _ j rfl hj hk (by decide +kernel) (by decide +kernel)
+
+/-- **the domain is needed (F32)**: the three-level description `A` → `A-B` → `A-B-C` is well keyed, outside `LegacyDomain`
+at 0.9, its 0.9 document exists and the reader refuses it (ValueError); and below 0.3 a date that is not the id's is not
+recovered (`IdDerivable`) -/
+theorem C05_ci_down_domain_needed :
+    (WellKeyed exDeep ∧ ¬ LegacyDomain (0, 9) exDeep
+     ∧ (match down k%"0.9" (0, 9) false exDeep with
+        | .ok j => (match Legacy.deserialize j with | .error .valueError => true | _ => false)
+        | .error _ => false) = true)
+    ∧ (let ci := { exDown with compose := { exDown.compose with date := k%"20150521" } }
+       (match down k%"0.2" (0, 2) false ci with
+        | .ok j => (match Legacy.deserialize j with | .ok x => x.compose.date == k%"20150522" | .error _ => false)
+        | .error _ => false) = true) :=
+  ⟨exDeep_outside, exDown_id_needed⟩
 
 /-- a 0.2 document: no date/respin, `product` section without type/internal, children by UID prefix only, a layered
 product with its own `product` section -/
@@ -505,6 +674,231 @@ theorem C05_ti_idempotent (sp : Char → Bool) (hsp : IniParse.SpOK sp) (hh : sp
     | cons c cs => rw [hu] at this; simpa using this
   exact C04_tree_bytes sp hsp hh hs fo t none text n h htext hck himn hts (hfl n hts) hplat huok hnd htop hcs ⟨hin, hF25⟩ hv hk
     (fun m hm => by cases hm)
+
+/-! ### the general down-conversion theorem, treeinfo
+
+`TI.down vs ver ck t` (Model/TreeInfoDown.lean) is the file a writer of format `ver` would have written for the tree `t`: the
+current file with the documented differences applied (`[header]` version text, `type` only from 1.1; ≤ 0.3: `[product]`, no
+`parent`, children under `addons` or `variants`, on a source tree the source paths under `packages` / `repository`).  0.1 – 1.2
+carry the same facts, so the documented result is the normal form itself (`TI.norm`, what the current format gives back: C04):
+**no loss**.  `TI.down` is compared with the harness's `legacy.ti_sections` on every generated case (driver op `c05_ti_down`). -/
+
+/--
+**faithful, every header version but 0.0, forests of any size and depth.**  The legacy-aware reader loads the format-`ver`
+file of `t` as exactly `norm t`: release (from `[product]` for ≤ 0.3), base product, tree, every variant at any depth with its
+fields, type, paths and children, checksums, images, stage2, media.  Hypotheses: `hval`, `hvt` — the header accepts the version
+text (facts about the text alone); `hts` … `hv` — exactly those of `C04_tree_readback` (the same file syntax: comma-free
+non-empty names, distinct UIDs, F17, F24, F25); and only for ≤ 0.3 (`hold`), each decidable and each necessary:
+* `ck` is one of the two spellings of the child list the ≤ 0.3 reader knows;
+* `ChainOK` — the `option_lookup` chain of a variant (`variant-UID`, `variant-ID`, `addon-UID`, `addon-ID`: the old format
+  allowed sections named by the bare id) meets no OTHER variant's section; otherwise the variant inherits that variant's paths
+  (`C05_ti_down_conditions_needed`: a child with id `B` beside a top-level `B`);
+* `SrcRepresentable` — on a source tree (`arch = src`) no variant has `packages` / `repository`: the ≤ 0.3 format keeps the
+  source paths there and has no other place for binary ones.
+-/
+theorem C05_ti_faithful_down (fo : FloatOracle) (vs : Str) (ver : Nat × Nat) (ck : Str) (t : TreeInfo) (d' : Ini) (n : Int)
+    (hdown : TI.down vs ver ck t = .ok d') (hne0 : (ver == (0, 0)) = false)
+    (hval : validateClass "treeinfo.Header" (TI.headerObj vs) = .ok ()) (hvt : TI.versionTuple vs = .ok ver)
+    (hts : t.tree.ts = .int n) (hfl : fo.intOfFloatStr (Str.intStr n) = .ok n)
+    (hplat : PlatformsOK t.tree) (huok : UidsOK t.variants) (hnd : UidsNodup t.variants)
+    (htop : TopNotAddon t.variants) (hcs : ChecksumsOK t.checksums) (himg : ImagesOK t.tree.arch t.images)
+    (hv : ReadValid (norm t))
+    (hold : tupleLe ver (0, 3) = true → (ck = kAddons ∨ ck = kVariants) ∧ ChainOK t.variants
+      ∧ ∀ x ∈ subVs none t.variants, SrcRepresentable (t.tree.arch == "src".toList) x.2.paths) :
+    TI.Legacy.deserialize fo d' = .ok (norm t) := by
+  cases ho : tupleLe ver (0, 3) with
+  | false => exact deserialize_down_new fo vs ver ck t d' n hdown ho hval hvt hts hfl hplat huok hnd htop hcs himg hv
+  | true =>
+    obtain ⟨hck, hch, hsr⟩ := hold ho
+    exact deserialize_down_old fo vs ver ck t d' n hdown ho hne0 hval hvt hck hts hfl hplat huok hnd htop hcs himg hv hch hsr
+
+/-- above 0.3 (0.4 … 1.0, 1.1, 1.2, any later version the header accepts): nothing beyond C04's hypotheses -/
+theorem C05_ti_faithful_down_above_0_3 (fo : FloatOracle) (vs : Str) (ver : Nat × Nat) (ck : Str) (t : TreeInfo) (d' : Ini) (n : Int)
+    (hdown : TI.down vs ver ck t = .ok d') (hnew : tupleLe ver (0, 3) = false)
+    (hval : validateClass "treeinfo.Header" (TI.headerObj vs) = .ok ()) (hvt : TI.versionTuple vs = .ok ver)
+    (hts : t.tree.ts = .int n) (hfl : fo.intOfFloatStr (Str.intStr n) = .ok n)
+    (hplat : PlatformsOK t.tree) (huok : UidsOK t.variants) (hnd : UidsNodup t.variants)
+    (htop : TopNotAddon t.variants) (hcs : ChecksumsOK t.checksums) (himg : ImagesOK t.tree.arch t.images)
+    (hv : ReadValid (norm t)) :
+    TI.Legacy.deserialize fo d' = .ok (norm t) :=
+  deserialize_down_new fo vs ver ck t d' n hdown hnew hval hvt hts hfl hplat huok hnd htop hcs himg hv
+
+/-- the reader side of it, for any file: **a file that differs from one the current reader accepts only in its `[header]`** —
+a version text above 0.3 that the header accepts — is read by the legacy-aware reader as the same object.  (The lemma the
+`[general]` theorems of C17 can be transported with: the current writer's output with another header version.) -/
+theorem C05_ti_header_only (fo : FloatOracle) (d d' : Ini) (x : TreeInfo) (vs : Str) (ver : Nat × Nat)
+    (h : TI.deserialize fo d = .ok x)
+    (hh : TI.Legacy.deHeaderL d' = .ok vs) (hvt : TI.versionTuple vs = .ok ver) (hnew : tupleLe ver (0, 3) = false)
+    (hsame : ∀ s, s ≠ sHeader → d'.lookup s = d.lookup s) (hnames : d'.map (·.1) = d.map (·.1)) :
+    TI.Legacy.deserialize fo d' = .ok x :=
+  legacy_of_current fo d d' x vs ver h hh hvt hnew hsame hnames
+
+/-- **then idempotent**: for a tree in normal form the loaded object is the tree itself; the current writer's file for it is
+read back by the *current* reader as the same tree, and dumping that gives the same document (C04_tree_fixpoint) -/
+theorem C05_ti_down_then_idempotent (fo : FloatOracle) (vs : Str) (ver : Nat × Nat) (ck : Str) (t : TreeInfo) (d' : Ini) (n : Int)
+    (hdown : TI.down vs ver ck t = .ok d') (hne0 : (ver == (0, 0)) = false) (hnorm : norm t = t)
+    (hval : validateClass "treeinfo.Header" (TI.headerObj vs) = .ok ()) (hvt : TI.versionTuple vs = .ok ver)
+    (hts : t.tree.ts = .int n) (hfl : fo.intOfFloatStr (Str.intStr n) = .ok n)
+    (hplat : PlatformsOK t.tree) (huok : UidsOK t.variants) (hnd : UidsNodup t.variants)
+    (htop : TopNotAddon t.variants) (hcs : ChecksumsOK t.checksums) (himg : ImagesOK t.tree.arch t.images)
+    (hold : tupleLe ver (0, 3) = true → (ck = kAddons ∨ ck = kVariants) ∧ ChainOK t.variants
+      ∧ ∀ x ∈ subVs none t.variants, SrcRepresentable (t.tree.arch == "src".toList) x.2.paths) :
+    TI.Legacy.deserialize fo d' = .ok t
+    ∧ ∃ d, serialize t none = .ok d ∧ TI.deserialize fo d = .ok t ∧ (TI.deserialize fo d).bind (serialize · none) = .ok d := by
+  cases hser : serialize t none with
+  | error e => unfold TI.down at hdown; rw [hser] at hdown; cases hdown
+  | ok d =>
+    have hv : ReadValid (norm t) := by rw [hnorm]; exact readValid_of_normal (serialize_valid hser) hnorm
+    have h1 := C05_ti_faithful_down fo vs ver ck t d' n hdown hne0 hval hvt hts hfl hplat huok hnd htop hcs himg hv hold
+    rw [hnorm] at h1
+    obtain ⟨h2, h3⟩ := C04_tree_fixpoint fo t none d n hser hnorm hts hfl hplat huok hnd htop hcs himg
+    exact ⟨h1, d, rfl, h2, h3⟩
+
+/-- the theorems are not vacuous and their conclusions evaluate: C04's example tree (three levels, an addon with a variant
+below it, paths, layered release, checksums, images, stage2, media) as 0.3 with `variants`, as 1.0 and as 1.1, and a source
+tree as 0.2 with `addons` (its file keeps the source paths under `packages` / `repository`: `ex_src_file`); every hypothesis
+holds of them (`ex_old_hyps`, and the C04 examples) -/
+theorem C05_ti_down_nonvacuous :
+    ((TI.down "0.3".toList (0, 3) kVariants C04_exTree0).toOption.map (TI.Legacy.deserialize C04_fo)) = some (.ok (norm C04_exTree0))
+    ∧ ((TI.down "0.2".toList (0, 2) kAddons exSrcTree).toOption.map (TI.Legacy.deserialize C04_fo)) = some (.ok (norm exSrcTree))
+    ∧ ((TI.down "1.0".toList (1, 0) kAddons C04_exTree0).toOption.map (TI.Legacy.deserialize C04_fo)) = some (.ok (norm C04_exTree0))
+    ∧ ((TI.down "1.1".toList (1, 1) kAddons C04_exTree0).toOption.map (TI.Legacy.deserialize C04_fo)) = some (.ok (norm C04_exTree0))
+    ∧ ChainOK C04_exTree0.variants ∧ ChainOK exSrcTree.variants
+    ∧ (∀ x ∈ subVs none exSrcTree.variants, SrcRepresentable (exSrcTree.tree.arch == "src".toList) x.2.paths) :=
+  ⟨ex_down_evaluated.1, ex_down_evaluated.2.1, ex_down_evaluated.2.2.1, ex_down_evaluated.2.2.2,
+   ex_old_hyps.1, ex_old_hyps.2.2.1, ex_old_hyps.2.2.2.1⟩
+
+/-- **both ≤ 0.3 conditions are needed**: a child with id `B` beside a top-level `B` violates `ChainOK`, its 0.3 file loads and
+the child has inherited `B`'s `packages` path; a source tree with a binary `packages` path is not `SrcRepresentable`, and the
+binary path comes back as the source path -/
+theorem C05_ti_down_conditions_needed :
+    (¬ ChainOK exChainTree.variants
+     ∧ ((TI.down "0.3".toList (0, 3) kAddons exChainTree).toOption.map fun d =>
+        match TI.Legacy.deserialize C04_fo d with
+        | .ok t' => t'.variants.flatMap fun v => v.kids.map fun k => (k.uid, k.paths)
+        | .error _ => []) = some [("A-B".toList, [("packages".toList, "B/Packages".toList)])])
+    ∧ (let t := { exSrcTree with variants := [.mk "S".toList "S".toList "S".toList "S".toList "variant".toList
+                 [("packages".toList, "bin".toList), ("source_packages".toList, "src".toList)] []] }
+       ¬ (∀ x ∈ subVs none t.variants, SrcRepresentable (t.tree.arch == "src".toList) x.2.paths)
+       ∧ ((TI.down "0.3".toList (0, 3) kAddons t).toOption.map fun d =>
+          match TI.Legacy.deserialize C04_fo d with
+          | .ok t' => t'.variants.map fun v => v.paths
+          | .error _ => []) = some [[("source_packages".toList, "bin".toList)]]) :=
+  ⟨ex_chain_needed, ex_src_needed⟩
+
+/-! ### pre-productmd files (0.0): what each reader recovers, from ANY file
+
+No `TI.down` is claimed for 0.0: the layout loses facts (short name outside the family table, layered release and base product,
+variant name / type, every path kind but `packages` / `repository` / `identity`) and the readers are heuristics.  What CAN be
+stated without restating the code is stated per section, for every file (not only written ones; the hypotheses are facts about
+the options present): the result of each 0.0 reader in closed form.  The literal tables (family → name / short, RHEL 5 addons,
+RHEL 3 – 6 and Fedora path rules) are the harness's explicit mapping-table oracle (`general_mirror`, 142 literal cases) and
+the witness `C05_ti_upgrade_0_0_witness`; the `[general]` the CURRENT writer emits read through these lemmas is C17's subject
+(`C05_ti_00_tree`, `C05_ti_00_release`, `C05_ti_00_top_variant`, `C05_ti_00_general_variant`, `C05_ti_00_general_paths` are
+stated on exactly the options `General.serialize` writes: family, version, arch, timestamp, variant, packagedir, repository). -/
+
+/-- **0.0, tree**: arch and timestamp come from `[general]` (`int(float(timestamp))`); the platforms are the arch and the
+platform of every `images-*` section (`platforms00`; a section named after the arch would add its `platforms`) -/
+theorem C05_ti_00_tree (fo : FloatOracle) (d : Ini) (arch ts : Str) (n : Int)
+    (ha : Ini.get d sGeneral kArch = .ok arch) (hnos : (Ini.sections d).contains arch = false)
+    (ho : Ini.hasOption d sGeneral kTimestamp = true) (ht : Ini.get d sGeneral kTimestamp = .ok ts) (hn : fo.intOfFloatStr ts = .ok n)
+    (hv : validateClass "treeinfo.Tree" (treeObj ⟨arch, .int n, platforms00 arch (Ini.sections d)⟩) = .ok ()) :
+    TI.Legacy.deTreeL fo true d = .ok ⟨arch, .int n, platforms00 arch (Ini.sections d)⟩ :=
+  deTreeL_00 fo d arch ts n ha hnos ho ht hn hv
+
+/-- … and -1 without a `timestamp` -/
+theorem C05_ti_00_tree_no_timestamp (fo : FloatOracle) (d : Ini) (arch : Str)
+    (ha : Ini.get d sGeneral kArch = .ok arch) (hnos : (Ini.sections d).contains arch = false)
+    (ho : Ini.hasOption d sGeneral kTimestamp = false)
+    (hv : validateClass "treeinfo.Tree" (treeObj ⟨arch, .int (-1), platforms00 arch (Ini.sections d)⟩) = .ok ()) :
+    TI.Legacy.deTreeL fo true d = .ok ⟨arch, .int (-1), platforms00 arch (Ini.sections d)⟩ :=
+  deTreeL_00_no_timestamp fo d arch ha hnos ho hv
+
+/-- **0.0, release**: name and short name by the family table (`releaseShort00`: the literal table of
+`Release.deserialize_0_0`; outside it the family itself and the EMPTY short name: `hplain`), the version by `version00` (the
+last dash/underscore-separated part that looks like a version), never layered -/
+theorem C05_ti_00_release (d : Ini) (family version v' : Str)
+    (hf : Ini.get d sGeneral TI.Legacy.kFamilyS = .ok family) (hver : Ini.get d sGeneral kVersion = .ok version)
+    (hv' : TI.Legacy.version00 version = .ok v')
+    (hv : validateClass "treeinfo.Release"
+      (releaseObj ⟨(TI.Legacy.releaseShort00 family).1, (TI.Legacy.releaseShort00 family).2, v'⟩ false) = .ok ()) :
+    TI.Legacy.deReleaseL .v00 d = .ok (⟨(TI.Legacy.releaseShort00 family).1, (TI.Legacy.releaseShort00 family).2, v'⟩, false)
+    ∧ (TI.Legacy.releaseShort00 family = (family, []) → TI.Legacy.deReleaseL .v00 d = .ok (⟨family, [], v'⟩, false)) := by
+  refine ⟨deReleaseL_00 d family version v' hf hver hv' hv, fun hplain => ?_⟩
+  rw [hplain] at hv
+  exact deReleaseL_00_plain d family version v' hf hver hv' hplain hv
+
+/-- **0.0, media**: `discnum` / `totaldiscs` of `[general]`; a missing disc number is 1, a missing total is the disc number -/
+theorem C05_ti_00_media (d : Ini) (a b : Option Int)
+    (hr : (match Ini.hasOption d sGeneral kDiscnum, Ini.hasOption d sGeneral kTotaldiscs with
+      | false, false => a = none ∧ b = none
+      | true, false => ∃ x, (Ini.get d sGeneral kDiscnum).bind Str.pyInt = .ok x ∧ a = some x ∧ b = some x
+      | false, true => ∃ y, (Ini.get d sGeneral kTotaldiscs).bind Str.pyInt = .ok y ∧ a = some 1 ∧ b = some y
+      | true, true => ∃ x y, (Ini.get d sGeneral kDiscnum).bind Str.pyInt = .ok x ∧ (Ini.get d sGeneral kTotaldiscs).bind Str.pyInt = .ok y
+          ∧ a = some x ∧ b = some y))
+    (hv : validateClass "treeinfo.Media" (mediaObj a b) = .ok ()) :
+    TI.Legacy.deMediaL true d = .ok (a, b) :=
+  deMediaL_00 d a b hr hv
+
+/-- **0.0, images / stage2 / checksums**: with relative paths the 0.0 readers ARE the current ones (C04); an absolute path is
+cut after its first `/os/`, else loses its leading slashes (`fixPath`) -/
+theorem C05_ti_00_relative_paths (d : Ini) (tree : Tree)
+    (himg : ∀ s ∈ Ini.sections d, isImg s = true → ∀ its, Ini.items d s = .ok its → ∀ kv ∈ its, relative kv.2 = true)
+    (hm : ∀ p, Ini.get d sStage2 kMainimage = .ok p → relative p = true)
+    (hi : ∀ p, Ini.get d sStage2 kInstimage = .ok p → relative p = true)
+    (hcs : ∀ its, Ini.items d sChecksums = .ok its → ∀ kv ∈ its, relative kv.1 = true) :
+    TI.Legacy.deImagesL true d tree = deImages d tree ∧ TI.Legacy.deStage2L true d = deStage2 d
+    ∧ TI.Legacy.deChecksumsL true d = deChecksums d :=
+  ⟨deImagesL_00_relative d tree himg, deStage2L_00_relative d hm hi, deChecksumsL_00_relative d hcs⟩
+
+/-- **0.0, top level**: a non-empty `variant` in `[general]` names the one top-level variant -/
+theorem C05_ti_00_top_variant (c : TI.Legacy.VCtx) (d : Ini) (v : Str) (ho : Ini.hasOption d sGeneral tVariant = true)
+    (hg : Ini.get d sGeneral tVariant = .ok v) (hne : v ≠ []) : TI.Legacy.topIds00 c d = .ok [v] :=
+  topIds00_variant c d v ho hg hne
+
+/-- **0.0, a variant known from `[general]` only** (none of `addon-UID`, `addon-ID`, `variant-UID`, `variant-ID` is a section,
+no `addons` in `[general]`, not RHEL 5): id = the last dash-separated part of the UID, name = id, type `variant` (`addon` when
+read as a child), no children — name and type of the written variant are NOT recovered -/
+theorem C05_ti_00_general_variant (S : TI.Legacy.Sels) (hS1 : S.variant = .v00) (hS2 : S.addonFallback = false)
+    (c : TI.Legacy.VCtx) (d : Ini) (f : Nat) (addon : Bool) (uid : Str)
+    (hne : uid ≠ []) (h0 : d.lookup Ini.DEFAULT = none)
+    (hnosec : ∀ s ∈ [pAddon ++ uid, pAddon ++ (Str.splitOn '-' uid).getLastD [], pVariant ++ uid,
+      pVariant ++ (Str.splitOn '-' uid).getLastD []], d.lookup s = none)
+    (hnoadd : Ini.hasOption d sGeneral kAddons = false) (hnot5 : TI.Legacy.isRhelMajor c ["5".toList] = false) :
+    TI.Legacy.readVariant S c d (f + 1) addon uid =
+      (TI.Legacy.dePathsL S.paths c d ((Str.splitOn '-' uid).getLastD []) uid (if addon then tAddon else tVariant)).map fun paths =>
+        .mk [] ((Str.splitOn '-' uid).getLastD []) uid ((Str.splitOn '-' uid).getLastD []) (if addon then tAddon else tVariant) paths [] :=
+  readVariant_00_general S hS1 hS2 c d f addon uid hne h0 hnosec hnoadd hnot5
+
+/-- **0.0, its paths**: for clean values (no trailing slash, not empty, not `.`, the repository not ending in `/repodata`),
+outside RHEL and source trees, `packagedir` of `[general]` is the `packages` path and `repository` the repository; no other
+path kind is recovered.  (What differs inside RHEL 3 – 6, for Fedora with `.`, with `/repodata` and for missing options is the
+literal rule list of `VariantPaths.deserialize_0_0`: the harness's table oracle.) -/
+theorem C05_ti_00_general_paths (c : TI.Legacy.VCtx) (d : Ini) (id uid type r p : Str) (h0 : d.lookup Ini.DEFAULT = none)
+    (hnosec : ∀ s ∈ [pAddon ++ uid, pAddon ++ id, pVariant ++ uid, pVariant ++ id], d.lookup s = none)
+    (hr : Ini.hasOption d sGeneral kRepository = true) (gr : Ini.get d sGeneral kRepository = .ok r)
+    (hnp : Ini.hasOption d sGeneral TI.Legacy.kPackages = false)
+    (hp : Ini.hasOption d sGeneral kPackagedir = true) (gp : Ini.get d sGeneral kPackagedir = .ok p)
+    (hid : Ini.hasOption d sGeneral TI.Legacy.kIdentity = false)
+    (r1 : TI.Legacy.rstripSlash r = r) (r2 : r ≠ []) (r3 : r ≠ ".".toList) (r4 : Str.endsWith r "/repodata".toList = false)
+    (p1 : TI.Legacy.rstripSlash p = p) (p2 : p ≠ []) (p3 : p ≠ ".".toList)
+    (hrhel : (c.relShort == TI.Legacy.sRHEL) = false) (hsrc : (c.arch == TI.Legacy.sSrc) = false) :
+    TI.Legacy.dePathsL .v00 c d id uid type = .ok [("packages".toList, p), ("repository".toList, r)] :=
+  dePathsL_00_general c d id uid type r p h0 hnosec hr gr hnp hp gp hid r1 r2 r3 r4 p1 p2 p3 hrhel hsrc
+
+/-- the hypotheses are satisfiable and the lemmas fit together: a `[general]`-only file (plain family, two image sections,
+stage2, checksums, a disc number) — every hypothesis holds of it (`ex00_hyps`) and the whole reader returns exactly the facts
+named above -/
+theorem C05_ti_00_nonvacuous :
+    TI.Legacy.deserialize C04_fo ex00 = .ok
+      { headerVersion := currentVersion, release := ⟨"Foo Linux".toList, [], "7.2".toList⟩, isLayered := false, baseProduct := none,
+        tree := ⟨"x86_64".toList, .int 1417653911, ["x86_64".toList, "xen".toList]⟩,
+        variants := [.mk "Everything".toList "Everything".toList "Everything".toList "Everything".toList "variant".toList
+          [("packages".toList, "Packages".toList), ("repository".toList, "repo".toList)] []],
+        checksums := [("images/boot.iso".toList, "sha256".toList, "ab".toList)],
+        images := [("x86_64".toList, [("kernel".toList, "images/vmlinuz".toList)]), ("xen".toList, [("kernel".toList, "images/xen/vmlinuz".toList)])],
+        mainimage := some "LiveOS/squashfs.img".toList, instimage := none, discnum := some 2, totaldiscs := some 2 } :=
+  ex00_loaded
 
 /-- **faithful and idempotent on a 0.3 witness** (`Proofs/C05WitnessTI.lean`: `wTI03`, evaluated in the kernel): `[product]`
 becomes the release, the child listed under `variants` is found in its `addon-` section, the `src` tree's paths become
